@@ -48,6 +48,14 @@ def run_job(job):
     from harness.refacc import attacker as K
     case, tr = job["case"], job["tr"]
     ident = _ident()
+    pin, ios_id = D.PIN, IOS_ID
+    if job.get("fresh"):                 # fresh accessory identity, setup code, controller id, salt and SRP key pair
+        from harness.refacc import accessory as A
+        frng = random.Random(job["fresh"])
+        pin = "%03d-%02d-%03d" % (frng.randrange(1000), frng.randrange(100), frng.randrange(1000))
+        ident = A.Identity(acc_id=":".join("%02X" % frng.randrange(256) for _ in range(6)), setup_code=pin)
+        ios_id = "%08x-%04x-%04x-%04x-%012x" % (frng.getrandbits(32), frng.getrandbits(16), frng.getrandbits(16),
+                                                 frng.getrandbits(16), frng.getrandbits(48))
     world = K.PSWorld(ident)
     sent = {}
     site = job.get("site")           # which message the concrete alteration / cut position belongs to
@@ -76,18 +84,18 @@ def run_job(job):
             return sent["m6"]
         return None
 
-    acc = D.ScriptedAccessory(ident=ident, hook=hook, fresh_srp=job.get("fresh", False))
+    acc = D.ScriptedAccessory(ident=ident, hook=hook, fresh_srp=bool(job.get("fresh")))
     try:
         if tr == "gen":
-            o = D.gen_pair_setup(acc, D.PIN, IOS_ID, real_decoder=True)
+            o = D.gen_pair_setup(acc, pin, ios_id, real_decoder=True)
         elif tr == "ip":
-            o = D.ip_pair_setup(acc, D.PIN)
+            o = D.ip_pair_setup(acc, pin)
         elif tr == "coap":
-            o = D.coap_pair_setup(acc, D.PIN)
+            o = D.coap_pair_setup(acc, pin)
         elif tr == "ble":
-            o = D.ble_pair_setup(acc, D.PIN, IOS_ID)
+            o = D.ble_pair_setup(acc, pin, ios_id)
         else:
-            o = D.ble_pair_setup(acc, D.PIN, IOS_ID, fragment_tlv=120)
+            o = D.ble_pair_setup(acc, pin, ios_id, fragment_tlv=120)
     except BaseException as ex:  # noqa: BLE001
         return {"observed": "baseexc", "exc": repr(ex), "m3sent": "m4" in sent, "m5sent": "m6" in sent, "problems": []}
     res = {"observed": "ok" if o.ok else "fail", "exc": None if o.ok else repr(o.exc), "m3sent": "m4" in sent,
@@ -121,7 +129,7 @@ def run_job(job):
                 pr.append("the controller id the accessory stored differs from the returned iOSPairingId")
             if pk is not None and acc.ps.ios_ltpk != pk:
                 pr.append("the controller key the accessory stored differs from the returned iOSDeviceLTPK")
-        if tr in ("gen", "ble", "blefrag") and rec.get("iOSPairingId") != IOS_ID:
+        if tr in ("gen", "ble", "blefrag") and rec.get("iOSPairingId") != ios_id:
             pr.append("returned iOSPairingId is not the one the caller supplied")
         if tr == "ip":
             if rec.get("AccessoryIP") != "10.0.0.1" or rec.get("AccessoryIPs") != ["10.0.0.1"] or rec.get("AccessoryPort") != 51826 \
@@ -191,7 +199,8 @@ def _jobs(ctx, cases):
     rng = random.Random(ctx.seed ^ 0xC03)
     jobs = []
     for c in cases:
-        near = c["family"] != "m6" or c["dist"] <= 1
+        ndiff = sum(1 for m in ("m2", "m4", "m6") for k, v in c[m].items() if _H[m][k] != v)
+        near = ndiff <= 1                   # full bit / byte expansion only where the alteration is the only deviation
         single = sum(1 for m in ("m2", "m4", "m6") if c[m] != _H[m]) <= 1
         trs = ["gen"]
         if c["honest"]:
@@ -204,7 +213,7 @@ def _jobs(ctx, cases):
         for tr in trs:
             j = {"case": c, "tr": tr}
             if c["honest"] and tr == "gen":
-                j["fresh"] = True
+                j["fresh"] = rng.getrandbits(48) | 1
             if msg is not None:
                 n = _LEN[fld]
                 if single and near and tr == "gen":
@@ -214,7 +223,7 @@ def _jobs(ctx, cases):
                 j["site"] = msg
                 j["how"] = ("bit", rng.randrange(n * 8)) if rng.random() < 0.7 else ("byte", rng.randrange(n), rng.randrange(256))
             if cmsg is not None:
-                if single and tr == "gen":
+                if near and tr == "gen":
                     cuts = range(1, clen) if ctx.thorough else sorted({1, clen - 1, rng.randrange(1, clen), rng.randrange(1, clen)})
                     for cb in cuts:
                         jobs.append(dict(j, cut_bytes=cb, site=cmsg))
@@ -226,7 +235,7 @@ def _jobs(ctx, cases):
         h = next(c for c in cases if c["honest"] and not c["m4"]["mfi"])
         # honest exchanges with fresh salts / SRP keys / identities (the record must be consistent for all of them)
         for _ in range(ctx.pick(16, 200)):
-            jobs.append({"case": h, "tr": rng.choice(["gen", "gen", "ip", "coap", "ble", "blefrag"]), "fresh": True})
+            jobs.append({"case": h, "tr": rng.choice(["gen", "gen", "ip", "coap", "ble", "blefrag"]), "fresh": rng.getrandbits(48) | 1})
     return jobs
 
 
@@ -256,6 +265,13 @@ def run(ctx):
         if len(cases) < 300 or not any(c["honest"] and c["verdict"] == "ok" for c in cases):
             raise MachineryError(f"case export incomplete ({len(cases)} cases)")
         cases.sort(key=lambda c: json.dumps(c, sort_keys=True))
+        seen, uniq = set(), []
+        for c in cases:                      # a sequence can be exported by two families (M2 variant + honest M4)
+            k = json.dumps([c["m2"], c["m4"], c["m6"]], sort_keys=True)
+            if k not in seen:
+                seen.add(k)
+                uniq.append(c)
+        cases = uniq
         jobs = _jobs(ctx, cases)
         with mp.get_context("fork").Pool(16) as pool:
             results = pool.map(_work, jobs, chunksize=8)
@@ -318,7 +334,7 @@ def run(ctx):
 
 def _jsonable_job(j):
     return {"case": j["case"], "tr": j["tr"], "how": list(j["how"]) if j.get("how") else None, "cut_bytes": j.get("cut_bytes"),
-            "site": j.get("site"), "fresh": j.get("fresh", False)}
+            "site": j.get("site"), "fresh": j.get("fresh", 0)}
 
 
 def _replay(ctx):
